@@ -974,12 +974,19 @@ class ExprMixin:
         eo = {}
         self.bind_target(g.target, elem(i), eo)
         saved = dict(s.env)
-        s.env.update(eo)
+        probe = s.copy()
+        probe.env.update(eo)
         acc = []
-        r = self.ev(e.elt, s, cx.child(spec=True, acc=acc))
-        s.env = saved
-        if len(r) != 1 or acc:
+        try:
+            r = self.ev(e.elt, probe, cx.child(spec=True, acc=acc))
+        except Unsupported:
+            r = []
+        pure = (len(r) == 1 and not acc and r[0][0].top is probe.top and r[0][0].heap == s.heap and r[0][0].glob == s.glob
+                and z3.eq(r[0][0].top, s.top))
+        if not pure:
             return self.comprehension_as_loop(e, st, cx, kind)
+        s.pc.extend(r[0][0].pc[len(s.pc):])
+        s.env = saved
         v = r[0][1]
         if isinstance(v, VRef):
             ls = TList(Ref)
